@@ -307,8 +307,10 @@ func (c *conn) close() {
 
 	c.ctx.Cancel()
 	c.conn.Close()
+	verifYield(14)
 	c.closed.Set()
 	c.writeq.Close()
+	verifYield(13)
 }
 
 func (c *conn) free() {
@@ -423,9 +425,12 @@ func (c *conn) addClosed(fn func()) int64 {
 		return 0
 	}
 
+	verifYield(11)
+
 	// Add listener
 	id := c.closedListenerSeq.Add(1)
 	c.closedListeners.Set(id, fn)
+	verifYield(12)
 
 	// Check again if closed
 	if c.closed.IsSet() {
